@@ -397,6 +397,9 @@ def grid_layout(ctx, rule="R09.5"):
 
 
 def run(ctx):
+    from ..small import none_default_rule
+
+    none_default_rule(ctx, "R09.8", ["variogram/"], 10)
     differences_only(ctx)
     preprocessing(ctx)
     sampling(ctx)
